@@ -21,7 +21,10 @@ RULE = ("Hypothesis rule-based state machine over one live model and a plain dic
         "pair list of wrong length (shorter, longer, empty), wrong-size 2-D array. Oracle: every bad input raises (any "
         "exception type); after every step ode(x,t) and grad(x,t) at a generated point equal the values computed from the "
         "abstract model with the dict's values, entry by entry for every entry that depends only on parameters whose value is "
-        "specified (names mentioned in a rejected call become unspecified until assigned again). Non-trivial = >=3 parameters "
+        "specified (names mentioned in a rejected call become unspecified until assigned again). In part of the histories a SECOND "
+        "model object is made from the live one after >=1 assignment (copy.deepcopy, or get_unrolled_obj for probe models entered as ode= strings) "
+        "and the later operations address either object; after every step BOTH objects are observed, each against its own dict "
+        "(a deep copy starts with the original's values, an unrolled object with none specified). Non-trivial = >=3 parameters "
         "and (a non-identity permutation, or a partial update after a full assignment in a different format); distinct by "
         "operation-sequence hash.")
 ASSUMPTIONS = [
@@ -70,14 +73,52 @@ class World:
         self.last_full_form = None
         self.nontrivial = False
         self.n_ops = 0
+        self.slots = []          # a second model object derived from the first (deep copy / get_unrolled_obj): each has its own values
+        self.cur = 0
+
+    def _select(self, i):
+        if self.slots:
+            self.slots[self.cur] = {"model": self.model, "vals": self.vals, "last_full_form": self.last_full_form}
+            sl = self.slots[i]
+            self.model, self.vals, self.last_full_form = sl["model"], sl["vals"], sl["last_full_form"]
+            self.cur = i
+
+    def _spawn(self, op):
+        """A second model object made FROM the live one; from then on both are used side by side and each must keep the
+        values given to IT."""
+        from pygom.model import ode_utils
+        how = op["how"]
+        self.rec.label("spawn:" + how)
+        try:
+            if how == "unrolled":
+                other = self.model.get_unrolled_obj()
+                other._SC = ode_utils.compileCode(backend="lambda")
+                # the statement of get_unrolled_obj promises the same states and parameters, not their values: whatever the
+                # new object holds is unspecified until assigned
+                ovals = {p: None for p in self.m["params"]}
+            else:
+                other = copy.deepcopy(self.model)
+                ovals = dict(self.vals)
+        except Exception as e:
+            # making the second object is not what this property is about (get_unrolled_obj refuses a one-state model today)
+            raise Inconclusive("spawn/%s raised %s" % (how, type(e).__name__))
+        self.slots = [{"model": self.model, "vals": self.vals, "last_full_form": self.last_full_form},
+                      {"model": other, "vals": ovals, "last_full_form": None if how == "unrolled" else self.last_full_form}]
+        self.cur = 0
 
     def apply(self, op):
         self.n_ops += 1
         kind = op["op"]
+        if kind == "spawn":
+            self._spawn(op)
+            return
+        if self.slots:
+            self._select(int(op.get("on", 0)) % len(self.slots))
+            self.rec.label("two-objects:%s-on-%s" % (kind, "original" if self.cur == 0 else "derived"))
         if kind == "init":
             self.m = copy.deepcopy(op["model"])
             try:
-                self.model, _o = render.build(copy.deepcopy(self.m))
+                self.model, _o = render.build(copy.deepcopy(self.m), as_ode=bool(self.m.get("as_ode")))
             except Exception as e:
                 raise PropertyViolation("C09/construct/" + type(e).__name__, "constructing the model raised %r" % (e,), None)
             self.vals = {p: None for p in self.m["params"]}
@@ -90,6 +131,14 @@ class World:
         elif kind == "assign_random":
             self._assign_random(op)
         self._observe(op)
+        if self.slots:
+            # the object the operation was NOT addressed to still evaluates with its own values
+            tgt = self.cur
+            self._select(1 - tgt)
+            try:
+                self._observe(op, other=True)
+            finally:
+                self._select(tgt)
 
     # ---- building the argument
     @staticmethod
@@ -201,7 +250,7 @@ class World:
             if n in self.vals:
                 self.vals[n] = None
 
-    def _observe(self, op):
+    def _observe(self, op, other=False):
         m = self.m
         params = m["params"]
         if all(self.vals[p] is None for p in params):
@@ -233,8 +282,10 @@ class World:
             bad = mask & ~(np.abs(got - ref) <= 1e-9 * scale + floor)
             if bad.any():
                 i = tuple(int(k) for k in np.argwhere(bad)[0])
-                raise PropertyViolation("C09/%s/wrong-binding" % what, "%s(x,t)%s = %.15g but the values assigned by name give "
-                                        "%.15g (values by name: %s)" % (what, list(i), got[i], ref[i], self.vals), None)
+                raise PropertyViolation("C09/%s/wrong-binding%s" % (what, "/other-object" if other else ""),
+                                        "%s(x,t)%s = %.15g but the values assigned by name give "
+                                        "%.15g (values by name: %s)%s" % (what, list(i), got[i], ref[i], self.vals,
+                                                                          " [the model object the last operation was not addressed to]" if other else ""), None)
         if checked == 0:
             return
         if self.nontrivial and not getattr(self, "marked", False):
@@ -272,6 +323,7 @@ def gen_model(draw):
         n = draw(st.sampled_from([1, 2, 3, 3, 4, 5]))
         m = probe_model(n, list(draw(st.permutations(list(range(n))))))
         m["pscale"] = draw(st.sampled_from([1.0, 1.0, 1.0, 1.0, 1e-9]))
+        m["as_ode"] = draw(st.booleans())          # entered as explicit ode= strings (get_unrolled_obj exists for those)
         return m
     return draw(S.general_model(max_states=3, max_events=3, allow_range=False))
 
@@ -309,9 +361,9 @@ def gen_assign_named(draw, m):
     return op
 
 
-def gen_assign_partial(draw, m):
+def gen_assign_partial(draw, m, among=None):
     params = m["params"]
-    names = draw(st.lists(st.sampled_from(params), min_size=1, max_size=max(1, len(params) - 1), unique=True))
+    names = draw(st.lists(st.sampled_from(among or params), min_size=1, max_size=max(1, len(among or params) - (0 if among else 1)), unique=True))
     vtype, vals = _vals(draw, names, zero_ok=bool(m.get("probe")), scale=m.get("pscale", 1.0))
     op = {"op": "assign", "form": "partial", "names": names, "values": vals, "vtype": vtype,
           "keykinds": [draw(st.sampled_from(["str", "sym"])) for _ in names]}
@@ -359,18 +411,46 @@ def gen_bad(draw, m):
     return op
 
 
+def gen_spawn(draw, m):
+    hows = ["deepcopy"] + (["unrolled", "unrolled"] if m.get("as_ode") and len(m["params"]) >= 2 else [])
+    return {"op": "spawn", "how": draw(st.sampled_from(hows))}
+
+
 def history_strategy(tier, max_ops=10):
     """A whole history as one value (for @given-style engines such as the coverage-guided campaign)."""
     @st.composite
     def hist(draw):
         m = gen_model(draw)
         ops = [{"op": "init", "model": m}]
+        two = False
         for _ in range(draw(st.integers(1, max_ops))):
-            kind = draw(st.sampled_from(["positional", "named", "named", "partial", "partial", "bad", "random"]))
+            kind = draw(st.sampled_from(["positional", "named", "named", "partial", "partial", "bad", "random", "spawn"]))
+            if kind == "spawn":
+                if two or len(ops) < 2:
+                    continue
+                two = True
+                ops.append(gen_spawn(draw, m))
+                continue
+            if kind == "random" and not m.get("probe"):
+                kind = "partial"
+            if two and kind == "partial" and len(m["params"]) >= 2 and draw(st.booleans()):
+                first = draw(st.integers(0, 1))
+                a = gen_assign_partial(draw, m)
+                a["on"] = first
+                ops.append(a)
+                rest = [p for p in m["params"] if p not in a["names"]]
+                if rest:
+                    b = gen_assign_partial(draw, m, among=rest)
+                    b["on"] = 1 - first
+                    ops.append(b)
+                continue
             # (a partial dict is accepted as the very first assignment as well)
             gen = {"positional": gen_assign_positional, "named": gen_assign_named, "partial": gen_assign_partial, "bad": gen_bad,
                    "random": gen_assign_partial_random}[kind]
-            ops.append(gen(draw, m))
+            op = gen(draw, m)
+            if two:
+                op["on"] = draw(st.integers(0, 1))
+            ops.append(op)
         return {"ops": ops}
     return hist()
 
@@ -385,23 +465,53 @@ def machine(tier, rec, ctl):
     class C09Machine(machines.Base):
         WORLD = World
 
+        def do(self, op, data=None):
+            if data is not None and self.world is not None and self.world.slots:
+                op["on"] = data.draw(st.integers(0, 1))
+            return super().do(op)
+
+        @precondition(lambda self: self.dead or (self.world is not None and not self.world.slots and self.world.n_ops >= 2))
+        @rule(data=st.data())
+        def spawn(self, data):
+            """A second object made from the live model (deep copy, or get_unrolled_obj for ODE-defined models)."""
+            if self.dead:
+                return
+            self.do(gen_spawn(data.draw, self.world.m))
+
         @initialize(data=st.data())
         def init(self, data):
             self.do({"op": "init", "model": gen_model(data.draw)})
+
+        @precondition(lambda self: self.dead or (self.world is not None and self.world.slots and len(self.world.m["params"]) >= 2))
+        @rule(data=st.data())
+        def cross_partial(self, data):
+            """Two objects side by side: a partial update on one, then a partial update on the other that does not mention
+            the same names - each keeps its own earlier values for what its update left out."""
+            if self.dead:
+                return
+            first = data.draw(st.integers(0, 1))
+            a = gen_assign_partial(data.draw, self.world.m)
+            a["on"] = first
+            rest = [p for p in self.world.m["params"] if p not in a["names"]]
+            if not self.do(a) or not rest:
+                return
+            b = gen_assign_partial(data.draw, self.world.m, among=rest)
+            b["on"] = 1 - first
+            self.do(b)
 
         @precondition(lambda self: self.dead or (self.world is not None))
         @rule(data=st.data())
         def assign_positional(self, data):
             if self.dead:
                 return
-            self.do(gen_assign_positional(data.draw, self.world.m))
+            self.do(gen_assign_positional(data.draw, self.world.m), data)
 
         @precondition(lambda self: self.dead or (self.world is not None))
         @rule(data=st.data())
         def assign_named(self, data):
             if self.dead:
                 return
-            self.do(gen_assign_named(data.draw, self.world.m))
+            self.do(gen_assign_named(data.draw, self.world.m), data)
 
         @precondition(lambda self: self.dead or (self.world is not None))
         @rule(data=st.data())
@@ -409,7 +519,7 @@ def machine(tier, rec, ctl):
             """Also as the very first assignment: a partial dict is accepted then too (the rest stays at its default)."""
             if self.dead:
                 return
-            self.do(gen_assign_partial(data.draw, self.world.m))
+            self.do(gen_assign_partial(data.draw, self.world.m), data)
 
         @precondition(lambda self: self.dead or (self.world is not None and hasattr(self.world.model, "_parameters")
                                                  and self.world.m.get("probe")))
@@ -417,14 +527,14 @@ def machine(tier, rec, ctl):
         def assign_partial_random(self, data):
             if self.dead:
                 return
-            self.do(gen_assign_partial_random(data.draw, self.world.m))
+            self.do(gen_assign_partial_random(data.draw, self.world.m), data)
 
         @precondition(lambda self: self.dead or (self.world is not None))
         @rule(data=st.data())
         def bad_input(self, data):
             if self.dead:
                 return
-            self.do(gen_bad(data.draw, self.world.m))
+            self.do(gen_bad(data.draw, self.world.m), data)
 
     C09Machine.rec = rec
     C09Machine.ctl = ctl
